@@ -854,6 +854,26 @@ def input_aliasing_checks():
                             violated=f'size {rs.size}, {[len(c) for c in out]} rows returned, expected 0'))
     except Exception as e:
         bad.append(dict(script=dict(text='reused / stateful / empty combinators'), clause='reuse', call=0, violated=f'{type(e).__name__}: {e}'))
+    # sub-generators of different precision: every sample comes back with the value the sub-generator produced
+    try:
+        lo = G.PredefinedGenerator(torch.tensor([0.5, 1.5], dtype=torch.float32), torch.tensor([2.5, 3.5], dtype=torch.float32))
+        hi_x = torch.tensor([1.0 + 2.0 ** -40, 3.0 + 2.0 ** -45], dtype=torch.float64)
+        hi_y = torch.tensor([5.0 + 2.0 ** -41, 7.0 + 2.0 ** -44], dtype=torch.float64)
+        hi = G.PredefinedGenerator(hi_x, hi_y)
+        for order, gens, want in (('float32 then float64', (lo, hi), [[0.5, 1.5] + hi_x.tolist(), [2.5, 3.5] + hi_y.tolist()]),
+                                  ('float64 then float32', (hi, lo), [hi_x.tolist() + [0.5, 1.5], hi_y.tolist() + [2.5, 3.5]])):
+            out = [[float(v) for v in c.detach().double().reshape(-1)] for c in G.ConcatGenerator(*gens).get_examples()]
+            if out != want:
+                bad.append(dict(script=dict(text=f'ConcatGenerator of 2-D predefined generators, {order}'), clause='concat', call=0,
+                                violated=f'samples differ from the sub-generators\' samples: {out} expected {want}'))
+        lo1 = G.PredefinedGenerator(torch.tensor([0.5, 1.5], dtype=torch.float32))
+        hi1 = G.PredefinedGenerator(hi_x)
+        out = [float(v) for v in (lo1 + hi1).get_examples().detach().double().reshape(-1)]
+        if out != [0.5, 1.5] + hi_x.tolist():
+            bad.append(dict(script=dict(text='float32 generator + float64 generator (1-D)'), clause='concat', call=0,
+                            violated=f'samples differ from the sub-generators\' samples: {out}'))
+    except Exception as e:
+        bad.append(dict(script=dict(text='sub-generators of different precision'), clause='concat', call=0, violated=f'{type(e).__name__}: {e}'))
     return bad
 
 
